@@ -46,7 +46,7 @@ impl KnownFindings {
 }
 
 /// Counters with stable (sorted) output.
-#[derive(Default, Clone)]
+#[derive(Default, Clone, Debug)]
 pub struct Counters(pub BTreeMap<String, u64>);
 
 impl Counters {
